@@ -32,6 +32,47 @@ structure Cfg where
   from_ : String
   deriving DecidableEq, Repr
 
+/-! ### where the encoder's address comes from
+
+A negotiated session holds two stream infos.  `LocalAddr()` returns the `to` of the INPUT
+stream info: for a received session that was not told its address this is what the peer's
+header asked for.  The `from` of the output info is something else (what the session's own
+header carried). -/
+structure Addrs where
+  inTo : String
+  inFrom : String
+  outFrom : String
+  outTo : String
+  deriving DecidableEq, Repr
+
+/-- what `(*Session).LocalAddr()` reports -/
+def Addrs.localAddr (a : Addrs) : String := a.inTo
+
+inductive FromSource | localAddr | remoteAddr | outFrom | outTo | other
+  deriving DecidableEq, Repr
+
+/-- the expression assigned to `se.from` (regenerated fact) -/
+def FromSource.ofExpr : String → FromSource
+  | "s.LocalAddr()" => .localAddr
+  | "s.in.Info.To" => .localAddr
+  | "s.RemoteAddr()" => .remoteAddr
+  | "s.in.Info.From" => .remoteAddr
+  | "s.out.Info.From" => .outFrom
+  | "s.out.Info.To" => .outTo
+  | _ => .other
+
+def FromSource.pick : FromSource → Addrs → String
+  | .localAddr, a => a.inTo
+  | .remoteAddr, a => a.inFrom
+  | .outFrom, a => a.outFrom
+  | .outTo, a => a.outTo
+  | .other, _ => ""
+
+/-- `negotiateSession`: the configuration of the session's `stanzaEncoder` (an address only
+on server-to-server streams) -/
+def sessionCfg (src : FromSource) (ns : String) (a : Addrs) : Cfg :=
+  ⟨ns, if ns == nsServer then src.pick a else ""⟩
+
 def stanzaLocal (l : String) : Bool := l == "iq" || l == "message" || l == "presence"
 
 /-- `isStanzaEmptySpace` of session.go -/
@@ -66,6 +107,14 @@ def fillNs (cfg : Cfg) (n : Name) : Name := if n.space == "" then { n with space
 def encStart (cfg : Cfg) (fresh : String) (d : Int) (n : Name) (as : List Attr) : Tok :=
   if d == 1 && isStanzaEmptySpace n then
     .start (fillNs cfg n) (dropXmlns (fillNs cfg n) (completeAttrs cfg fresh as))
+  else .start n (dropXmlns n as)
+
+/-- the variant that runs the duplicate-`xmlns` loop first, on the name the caller gave (before
+the stamping step assigns the stream namespace): NOT what the code does, see
+`C05_early_filter_duplicates_xmlns` -/
+def encStartEarly (cfg : Cfg) (fresh : String) (d : Int) (n : Name) (as : List Attr) : Tok :=
+  if d == 1 && isStanzaEmptySpace n then
+    .start (fillNs cfg n) (completeAttrs cfg fresh (dropXmlns n as))
   else .start n (dropXmlns n as)
 
 /-- end element written when the depth *before* the decrement is `d` -/
